@@ -232,7 +232,8 @@ def run(ctx):
             if op.get("again") and op["again"] != out:
                 violation("not-a-function-of-the-identifier", f"two resolutions of {didb!r} differ", node_line + "\n" + opl)
         else:
-            outcomes[kind + " " + (line.split()[1] if len(line.split()) > 1 else "")[:12]] += 1 if kind in ("d2u", "u2d", "pd", "up") else 0
+            if kind in ("d2u", "u2d", "pd", "up", "wf", "ip"):
+                outcomes[kind + " " + (line.split()[1] if len(line.split()) > 1 else "")[:16]] += 1
             if kind in ("d2u", "u2d") and " ok" in line[:8]:
                 distinct.add(key)
     for sig, (_, what, opline) in sorted(best.items()):
